@@ -67,6 +67,40 @@ def _feat_builds(tier):
     return builds
 
 
+def feature_models(tier, seed):
+    """C07 under every cargo-feature subset: the model read back from its file bytes serialises to the identical bytes
+    (read_slice/to_vec everywhere, read/write too where `std` is compiled in); compared with the Lean encoder's bytes"""
+    out = {"name": "feature_models", "evaluations": 0, "failures": [], "suspicions": [], "stats": {}}
+    g = subprocess.run([HARNESS, "gen", "C07", "quick", str(seed)], capture_output=True, text=True, env=ENV)
+    if g.returncode != 0:
+        out["failures"].append({"what": "generator failed", "stderr": g.stderr[-500:]})
+        return out
+    cases = [l for l in g.stdout.splitlines() if l.startswith("B ")]
+    data = "".join(c + "\n" for c in cases)
+    m = subprocess.run([DRIVER], input=data, capture_output=True, text=True)
+    want = m.stdout.splitlines()
+    for name, feats in _feat_builds(tier):
+        tdir = os.path.join(ROOT, "target", "feat-" + name)
+        cmd = ["cargo", "build", "--release", "--offline", "--target-dir", tdir]
+        if feats:
+            cmd += ["--features", ",".join(feats)]
+        b = subprocess.run(cmd, cwd=os.path.join(ROOT, "harness-feat"), capture_output=True, text=True, env=ENV)
+        if b.returncode != 0:
+            out["suspicions"].append(f"feature build {name} ({feats}) does not compile: {b.stderr[-300:]}")
+            continue
+        r = subprocess.run([os.path.join(tdir, "release", "vfeat")], input=data, capture_output=True, text=True)
+        got = r.stdout.splitlines()
+        bad = [i for i in range(len(cases)) if i >= len(got) or i >= len(want) or got[i] != want[i]]
+        out["evaluations"] += len(cases)
+        out["stats"][name] = {"features": feats, "cases": len(cases), "differences": len(bad)}
+        for i in bad[:1]:
+            out["failures"].append({"what": f"a model file does not read back to the identical bytes in the build with features {feats or ['(none)']}",
+                                    "case": cases[i][:3000], "implementation": (got[i] if i < len(got) else None or "")[:1500], "model": (want[i] if i < len(want) else "")[:1500]})
+    out["note"] = f"{len(cases)} model files x {len(out['stats'])} feature builds read back and re-serialised"
+    out["distinct_nontrivial"] = len(set(cases))
+    return out
+
+
 def feature_matrix(tier, seed):
     """C13: one binary per cargo-feature subset of vaporetto, all run on the same cases; every output is compared with the
     model under the matching configuration and with the default build"""
